@@ -272,7 +272,15 @@ func (g *XGen) Struct(depth int) reflect.Type {
 		default:
 			sf = reflect.StructField{Name: name, Type: g.leaf()}
 		}
-		sf.Tag = g.tags(name, structy)
+		if sf.Anonymous && !r.Chance(1, 6) {
+			// alias tags on embedded fields only rarely (they have no name to alias)
+			fam := g.O.AliasFamilies
+			g.O.AliasFamilies = nil
+			sf.Tag = g.tags(name, structy)
+			g.O.AliasFamilies = fam
+		} else {
+			sf.Tag = g.tags(name, structy)
+		}
 		fields = append(fields, sf)
 	}
 	return reflect.StructOf(fields)
